@@ -74,6 +74,7 @@ type State struct {
 	noNaNInputs bool
 	keyMemo     map[*Term]*Term
 	replacements map[string]*Closure
+	arrayAlias   map[*ArrayV]*Object
 	ufVars       map[string]*Term
 	sqrtOf       map[*Term]*Term
 	absOf        map[*Term]*Term
@@ -886,8 +887,25 @@ func (s *State) sliceOp(f *Frame, x *ssa.Slice) Value {
 			s.panicReached("nil pointer dereference", "")
 		}
 		if len(b.path) != 0 {
-			// array embedded in a struct: only whole-object arrays supported as slice backing
-			panic(abortf("slicing an array field is not supported (%s)", s.pos(x)))
+			// array embedded in a struct/array: give the embedded *ArrayV its own heap object that
+			// aliases it (element writes through the slice and through the field path hit the same cells)
+			if s.symIndexPos(b.path) >= 0 {
+				b = s.concretizePtr(b)
+			}
+			get, _ := s.cell(s.writable(b.obj), b.path)
+			av, ok := get().(*ArrayV)
+			if !ok {
+				panic(abortf("slicing a non-array field (%s)", s.pos(x)))
+			}
+			if s.arrayAlias == nil {
+				s.arrayAlias = map[*ArrayV]*Object{}
+			}
+			o, ok := s.arrayAlias[av]
+			if !ok {
+				o = s.newObject(av, "embedded array")
+				s.arrayAlias[av] = o
+			}
+			b = Ptr{obj: o}
 		}
 		n := len(s.resolve(b.obj).val.(*ArrayV).e)
 		if lo == nil {
